@@ -1,5 +1,6 @@
 import ZbossModel.Proofs.Link
 import ZbossModel.Props.C05
+import ZbossModel.Generated.Exprs
 /-! # C08 - packet sequence numbers advance 0,1,2,3,1,2,3.. exactly on matching ACKs
 
 `Link.step` is the model of the link (send / data_received / ACK-wait expiry / cancel / close /
@@ -111,5 +112,15 @@ theorem C08_stamp_bytes (fl seq n : Nat) (p : HLPacket) (hn : n = p.serialize.le
 example : (runEvents {} [.rx (Frame.ack 0 false).serialize, .rx (Frame.ack 1 false).serialize,
     .rx (Frame.ack 2 false).serialize, .rx (Frame.ack 2 false).serialize, .rx (Frame.ack 3 false).serialize]).1.rx.packSeq = 1 := by
   decide +kernel
+
+/-- **source tie (translator 4)**: the expression `data_received` assigns to the sequence number on a matching
+    ACK, the shift `_set_frame_flag` applies to it and the way the ACK's number is taken out of the flags - all
+    translated from the Python ast on every run - are the model's, for every argument -/
+theorem C08_source_exprs (s flags : Nat) :
+    Gen.nextPackSeqExpr s = ((s % 3 + 1 : Nat) : Int) ∧
+    Gen.stampSeqExpr s = s <<< 2 ∧
+    Gen.ackSeqOfFlagsExpr flags = (flags &&& Gen.flagACKSeq) >>> 4 := by
+  refine ⟨?_, rfl, rfl⟩
+  unfold Gen.nextPackSeqExpr; omega
 
 end Zboss.Link
